@@ -135,6 +135,9 @@ func ruleR36(c *Ctx) {
 			if i := strings.LastIndex(name, "."); i >= 0 {
 				name = name[i+1:]
 			}
+			if name == "getKey" || name == "getTransformKey" {
+				name = "leafKey" // which of the two forms is read where is R02/R16's subject
+			}
 			out[name+"()"] = true
 		}
 	}
